@@ -1,5 +1,5 @@
 SPECIFICATION Spec
 CONSTANTS
   Groups = 32
-  Big = FALSE
+  Big = TRUE
 INVARIANTS NonInterference Emit
